@@ -1,6 +1,6 @@
 PLAN['C11'] = dict(
     level='exploration',
-    units=std_units('C11', [('asan', 'sdcz', 18000, 450000), ('asan-i64', 'sdcz', 4000, 100000)], chunk=500),
+    units=std_units('C11', [('asan', 'sdcz', 36000, 450000), ('asan-i64', 'sdcz', 8000, 100000)], chunk=500),
     rule='seeded m x n matrices (1..30, thorough 1..60; 11 pattern classes of the shared generator, or small covering patterns) with a module-private '
          'value generator: 12 magnitude classes (moderate; row/column/both scaled over 2^+-100 single / 2^+-920 double; near overflow; subnormal; '
          'every entry anywhere in the full exponent range; row maxima / largest entry / scaled column maxima placed exactly at and up to 7 ulps around '
